@@ -133,6 +133,13 @@ def vsGlv (io : GIO G) (c : GlvCfg) (P : G) (impl want : String) : String :=
   else if io.smul c.r P != 0 then "note:P-outside-order-r-subgroup,want=" ++ want
   else "bad:want=" ++ want
 
+/-- tag suffix `,ood` ("out of domain") for the inputs on which `vsGlv` would only ever give a note: the GLV
+    hypotheses (determinant `r`, `P` in the order-`r` subgroup) are violated by the caller, the property and the
+    theorems say nothing, and `check` does not treat a model/implementation difference there as a broken
+    correspondence -/
+def glvOod (io : GIO G) (c : GlvCfg) (P : G) : String :=
+  if c.n11 * c.n22 - c.n12 * c.n21 != (c.r : Int) || io.smul c.r P != 0 then ",ood" else ""
+
 def runG (io : GIO G) (te : Bool) (op : String) (args : List String) (impl : String) : Option (String × String) := do
   match op, args with
   | "dbladd.aff", [P, ls] =>
@@ -230,10 +237,10 @@ def runG (io : GIO G) (te : Bool) (op : String) (args : List String) (impl : Str
     some (ms, verdict)
   | "glv.proj", [P, k, g] =>
     let P ← io.parse P; let k ← parseHex? k; let (c, beta) ← parseGlv g
-    some (io.str (glvMulProjective c (io.endo beta) P k) ++ " @" ++ glvTag c k, vsGlv io c P impl (io.str (io.smul k P)))
+    some (io.str (glvMulProjective c (io.endo beta) P k) ++ " @" ++ glvTag c k ++ glvOod io c P, vsGlv io c P impl (io.str (io.smul k P)))
   | "glv.aff", [P, k, g] =>
     let P ← io.parse P; let k ← parseHex? k; let (c, beta) ← parseGlv g
-    some (io.str (glvMulAffine c (io.endo beta) P k) ++ " @" ++ glvTag c k, vsGlv io c P impl (io.str (io.smul k P)))
+    some (io.str (glvMulAffine c (io.endo beta) P k) ++ " @" ++ glvTag c k ++ glvOod io c P, vsGlv io c P impl (io.str (io.smul k P)))
   | "batch.table", [P, ns, ss] =>
     let P ← io.parse P; let ns ← parseHex? ns; let ss ← parseHex? ss
     let t := withNumScalarsAndScalarSize P ns ss
